@@ -6,30 +6,37 @@ From PcfgGen Require Import Consts_gen Unicode_gen.
 Import ListNotations.
 Open Scope Z_scope.
 
-(* side condition on the constant regenerated from the scorer's source *)
+(* ---- side conditions on the constants regenerated from the scorer's source *)
 Theorem C13_side_scorer_min_len : 1 <= s_min_len.
 Proof. exact side_scorer_min_len. Qed.
+(* parse() zeroes the probability when re-applying the mask to the lower-cased
+   word does not give back the alpha section (the repair of R16; the theorem
+   below is about the scorer WITH this check, see C13_refuted_case_sharp_s for
+   the scorer without it) *)
+Theorem C13_source_rebuild_check : scorer_rebuild_check = true.
+Proof. exact side_rebuild_check. Qed.
 
 (* Over exact rationals, for every ruleset (the tables the scorer loaded), every
-   state m of its multi-word detector and every non-empty string: a non-zero
+   state m of its multi-word detector and EVERY non-empty string: a non-zero
    score p means that some base structure of the ruleset and one terminal per
-   position (for an alpha variable a word and a capitalisation mask) spell
-   exactly s with probability base * product = p -- provided the case mapping
-   of every character of s is one-to-one (c_case_ok).
+   position (for an alpha variable a word and a capitalisation mask, applied
+   with the interpreter's upper()) spell exactly s with probability
+   base * product = p.
    PARTIAL with respect to DESIGN's statement: the guesser's side is the
    relation c_generates over the same tables (its agreement with the real
    PcfgGrammar enumeration is a correspondence obligation of this check),
    not `all_preterminals` of Next.v; full statement:
      In it (all_preterminals (guesser_view rs)) /\ In s (denote (pt it)) /\ prob_Q it = p. *)
 Theorem C13_promise_Q_partial : forall rs m s cat p, s <> [] ->
-  score Q Qmult 0%Q 1%Q (parse_s m) rs s = Some (cat, p) -> ~ (p == 0)%Q -> c_case_ok s -> c_generates rs s p.
+  score Q Qmult 0%Q 1%Q scorer_rebuild_check c_upper (parse_s m) rs s = Some (cat, p) -> ~ (p == 0)%Q ->
+  c_generates rs s p.
 Proof. exact promise_c. Qed.
 
 (* strings in which an e-mail or website is detected are classified as such
    and given probability 0 *)
 Theorem C13_email_website_zero : forall (seg : str -> presult) (rs : ruleset Q) s r, seg s = POk r ->
-  (p_emails r <> [] -> score Q Qmult 0%Q 1%Q seg rs s = Some (CatE, 0%Q)) /\
-  (p_emails r = [] -> p_urls r <> [] -> score Q Qmult 0%Q 1%Q seg rs s = Some (CatW, 0%Q)).
+  (p_emails r <> [] -> score Q Qmult 0%Q 1%Q scorer_rebuild_check c_upper seg rs s = Some (CatE, 0%Q)) /\
+  (p_emails r = [] -> p_urls r <> [] -> score Q Qmult 0%Q 1%Q scorer_rebuild_check c_upper seg rs s = Some (CatW, 0%Q)).
 Proof. exact email_website_zero. Qed.
 
 (* an absent length / value-table / base structure gives 0 *)
@@ -44,22 +51,31 @@ Theorem C13_missing_is_zero : forall (rs : ruleset Q) r,
 Proof. exact missing_is_zero. Qed.
 
 (* the score is a function of the ruleset tables and the string alone: the
-   model has no state to write (the implementation's detector state is
-   compared before and after every call by the check) *)
-Theorem C13_pure : forall rs m s, score Q Qmult 0%Q 1%Q (parse_s m) rs s = score Q Qmult 0%Q 1%Q (parse_s m) rs s.
+   model has no state to write (the implementation's detector state and tables
+   are compared before and after every call by the check) *)
+Theorem C13_pure : forall rs m s,
+  score Q Qmult 0%Q 1%Q scorer_rebuild_check c_upper (parse_s m) rs s =
+  score Q Qmult 0%Q 1%Q scorer_rebuild_check c_upper (parse_s m) rs s.
 Proof. exact (fun rs m s => eq_refl). Qed.
 
-(* R16: without c_case_ok the promise fails: U+1E9E scores 1/2 under a ruleset
-   whose guesser spells that pre-terminal "SS" *)
+(* R16, the scorer as it was (no rebuild check): U+1E9E scores 1/2 under a
+   ruleset whose guesser spells that pre-terminal "SS"; with the check it
+   scores 0.  Without the check the promise only holds for strings whose case
+   mapping is one-to-one (C13_holds_outside). *)
 Theorem C13_refuted_case_sharp_s :
-  score Q Qmult 0%Q 1%Q (parse_s (scorer_mw_Q rs_sharp)) rs_sharp w_sharp = Some (CatOther, (1 * 1 * (1#2) * 1)%Q) /\
+  score Q Qmult 0%Q 1%Q false c_upper (parse_s (scorer_mw_Q rs_sharp)) rs_sharp w_sharp = Some (CatOther, (1 * 1 * (1#2) * 1)%Q) /\
+  score Q Qmult 0%Q 1%Q scorer_rebuild_check c_upper (parse_s (scorer_mw_Q rs_sharp)) rs_sharp w_sharp = Some (CatOther, 0%Q) /\
   ~ c_case_ok w_sharp /\ forall p, ~ c_generates rs_sharp w_sharp p.
 Proof. exact refuted_case_sharp_s. Qed.
+Theorem C13_holds_outside : forall rs m s cat p, s <> [] ->
+  score Q Qmult 0%Q 1%Q false c_upper (parse_s m) rs s = Some (cat, p) -> ~ (p == 0)%Q -> c_case_ok s -> c_generates rs s p.
+Proof. exact promise_old_c. Qed.
 
 (* the hypotheses of the promise are satisfiable on a non-trivial instance *)
 Example C13_demo :
-  score Q Qmult 0%Q 1%Q (parse_s (scorer_mw_Q rs_sharp)) rs_sharp w_sharp_lower = Some (CatOther, (1 * 1 * (1#2) * 1)%Q) /\
-  c_case_ok w_sharp_lower /\ c_generates rs_sharp w_sharp_lower (1 * 1 * (1#2) * 1)%Q.
+  score Q Qmult 0%Q 1%Q scorer_rebuild_check c_upper (parse_s (scorer_mw_Q rs_sharp)) rs_sharp w_sharp_lower
+    = Some (CatOther, (1 * 1 * (1#2) * 1)%Q) /\
+  c_generates rs_sharp w_sharp_lower (1 * 1 * (1#2) * 1)%Q.
 Proof. exact demo_promise. Qed.
 
 Print Assumptions C13_promise_Q_partial.
